@@ -49,7 +49,7 @@ def classify(ctx, src, trace_resp, lex_in):
     """Find the first phase whose output no longer lexes to the input's tokens/comments."""
     texts = F.trace_texts(trace_resp)
     names = [p for p in PHASES if p in texts]
-    lexes = ctx.garden_batch(["lex " + texts[p] for p in names], shards=1)
+    lexes = F.garden_batch(ctx, ["lex " + texts[p] for p in names], shards=1)
     want = (tok_texts(lex_in), F.lex_comments(lex_in))
     ml = F.line_starts_in_string(src)
     for p, lx in zip(names, lexes):
@@ -75,7 +75,7 @@ def run(ctx):
                 "text (output != input).")
     srcs = [s for _, s in items]
     hx = [hexs(s) for s in srcs]
-    r_ast = ctx.garden_batch(["ast " + h for h in hx])
+    r_ast = F.garden_batch(ctx, ["ast " + h for h in hx])
     good = []
     n_perr = n_hook = 0
     for (o, s), h, r in zip(items, hx, r_ast):
@@ -92,23 +92,23 @@ def run(ctx):
     ctx.log("inputs: %d, parseable: %d (parse errors %d, hook failures %d)" % (len(items), len(good), n_perr, n_hook))
 
     hs = [g[2] for g in good]
-    r_fmt = ctx.garden_batch(["format " + h for h in hs])
-    r_tr = ctx.garden_batch(["fmt_trace " + h for h in hs])
-    r_lex = ctx.garden_batch(["lex " + h for h in hs])
+    r_fmt = F.garden_batch(ctx, ["format " + h for h in hs])
+    r_tr = F.garden_batch(ctx, ["fmt_trace " + h for h in hs])
+    r_lex = F.garden_batch(ctx, ["lex " + h for h in hs])
     outs = []
     for g, r in zip(good, r_fmt):
         outs.append(r[3:] if r and r.startswith("OK ") else None)
     idx = [i for i, o in enumerate(outs) if o is not None]
     idx_ch = [i for i in idx if outs[i] != hs[i]]       # unchanged text: same tree, nothing to parse
-    r_ast_out = dict(zip(idx_ch, ctx.garden_batch(["ast " + outs[i] for i in idx_ch])))
+    r_ast_out = dict(zip(idx_ch, F.garden_batch(ctx, ["ast " + outs[i] for i in idx_ch])))
     for i in idx:
         if i not in r_ast_out:
             r_ast_out[i] = "OK (ast %s) " % hexs(good[i][3])
-    r_lex_out = dict(zip(idx, ctx.garden_batch(["lex " + outs[i] for i in idx])))
+    r_lex_out = dict(zip(idx, F.garden_batch(ctx, ["lex " + outs[i] for i in idx])))
     texts = [F.trace_texts(r) for r in r_tr]
     idx_t = [i for i in idx if "wrap" in texts[i] and "spans" in texts[i]]
-    r_lex_wrap = dict(zip(idx_t, ctx.garden_batch(["lex " + texts[i]["wrap"] for i in idx_t])))
-    r_lex_spans = dict(zip(idx_t, ctx.garden_batch(["lex " + texts[i]["spans"] for i in idx_t])))
+    r_lex_wrap = dict(zip(idx_t, F.garden_batch(ctx, ["lex " + texts[i]["wrap"] for i in idx_t])))
+    r_lex_spans = dict(zip(idx_t, F.garden_batch(ctx, ["lex " + texts[i]["spans"] for i in idx_t])))
 
     # ---- model side
     st_lines = ["same_tokens (a %s) (b %s)" % (r_lex[i][3:], r_lex_out[i][3:]) for i in idx]
